@@ -120,13 +120,23 @@ def regenerate(prop, ext):
     # modules of OTHER properties that this one imports: only make sure they exist (a fresh tree); they are
     # regenerated and judged by their own property's check
     def ensure_deps():
+        """modules of OTHER properties that this one imports are refreshed from the current source as well (a stale file
+        left by a run against another tree must never make this check alarm); their obligations are judged by their owner,
+        a failing translator leaves the existing file in place"""
         missing = []
         for name in gen_deps(prop):
             dst = os.path.join(gdir, name + ".lean")
+            tmp = os.path.join(ROOT, ".work", "gendep_" + prop["id"] + "_" + name + ".lean")
+            if os.path.exists(tmp):
+                os.remove(tmp)
+            rc_, o_, _ = run([ext, name, "-repo", REPO, "-out", tmp], cwd=HARN, env=GOENV)
+            if rc_ == 0 and os.path.exists(tmp):
+                new_ = open(tmp).read()
+                if not os.path.exists(dst) or open(dst).read() != new_:
+                    with open(dst, "w") as f:
+                        f.write(new_)
             if not os.path.exists(dst):
-                rc_, o_, _ = run([ext, name, "-repo", REPO, "-out", dst], cwd=HARN, env=GOENV)
-                if not os.path.exists(dst):
-                    missing.append(name)
+                missing.append(name)
         return missing
     ensure_deps()
     for name in prop.get("gen", []):
